@@ -27,6 +27,8 @@ struct Case {
     renamed: bool,
     mapped: bool,
     homonym: bool,
+    /// the same-named type of the third crate carries serde(rename) (the referenced target may or may not)
+    homonym_renamed: bool,
     position: &'static str,
     deep: bool,
     dashed: bool,
@@ -85,7 +87,12 @@ fn workspace(c: &Case) -> Vec<(String, String)> {
         files.push((tgt_path, target_def));
     }
     if c.homonym {
-        files.push(("ws/zz-other/src/lib.rs".to_string(), "#[typeshare]\npub struct Target { pub other_crate: bool }\n".to_string()));
+        let r = if c.homonym_renamed { "#[serde(rename = \"Quux\")]\n" } else { "" };
+        // a crate that sorts before and one that sorts after the referenced one
+        files.push(("ws/zz-other/src/lib.rs".to_string(), format!("#[typeshare]\n{r}pub struct Target {{ pub other_crate: bool }}\n")));
+        if c.homonym_renamed {
+            files.push(("ws/aa-other/src/lib.rs".to_string(), "#[typeshare]\n#[serde(rename = \"Quuz\")]\npub struct Target { pub third_crate: bool }\n".to_string()));
+        }
     }
     if third_crate(c.form) {
         files.push(("ws/shapes/src/lib.rs".to_string(), "#[typeshare]\npub struct Page<T> { pub items: Vec<T>, pub total: u32 }\n\n#[typeshare]\npub struct Pair<A, B> { pub a: A, pub b: B }\n".to_string()));
@@ -176,7 +183,7 @@ fn run_case(c: &Case) -> Obs {
 fn judge(c: &Case, o: &Obs, vios: &mut Vec<Violation>) -> (u64, String) {
     let mut judgements = 0;
     let lang = c.lang;
-    let shape = format!("form={}|renamed={}|mapped={}|homonym={}|pos={}", c.form, c.renamed as u8, c.mapped as u8, c.homonym as u8, c.position);
+    let shape = format!("form={}|renamed={}|mapped={}|homonym={}|pos={}", c.form, c.renamed as u8, c.mapped as u8, c.homonym as u8 + c.homonym_renamed as u8, c.position);
     let ws = workspace(c);
     let detail = |what: &str| json!({"case": format!("{c:?}"), "argv": o.argv, "workspace": ws.iter().map(|(p, s)| json!({"path": p, "source": s})).collect::<Vec<_>>(), "config": config(c), "generated_files": o.files, "stderr": o.stderr, "observation": what});
     if o.class != "ok" {
@@ -222,7 +229,7 @@ fn judge(c: &Case, o: &Obs, vios: &mut Vec<Violation>) -> (u64, String) {
     if !has(&file_of(&tcrate), target_name) {
         vios.push(Violation { sig: format!("C14|{}|definition-in-wrong-file|item=target|renamed={}", lang.name(), c.renamed as u8), detail: detail(&format!("{target_name} must be defined in {}", file_of(&tcrate))) });
     }
-    if c.homonym && !has(&file_of("zz_other"), "Target") {
+    if c.homonym && !has(&file_of("zz_other"), if c.homonym_renamed { "Quux" } else { "Target" }) {
         vios.push(Violation { sig: format!("C14|{}|definition-in-wrong-file|item=homonym", lang.name()), detail: detail("the other crate's Target must be defined in its own file") });
     }
     // (c) same definitions as single-file mode
@@ -322,6 +329,16 @@ fn topology_family(rep: &mut Report) {
         root: &'static str,
         /// every second crate's type carries a name starting with a non-ASCII capital letter
         unicode: bool,
+        /// crate directories named `kv-1.<n>`: names that differ only after the last dot (no cross references:
+        /// such a name cannot appear in a Rust path)
+        dotted: bool,
+    }
+    fn cdir(n: usize, dotted: bool) -> String {
+        if dotted {
+            format!("kv-1.{n}")
+        } else {
+            format!("k{n}")
+        }
     }
     fn tn(n: usize, unicode: bool) -> String {
         if unicode && n % 2 == 0 {
@@ -348,15 +365,19 @@ fn topology_family(rep: &mut Report) {
                     if k > kmax || (qualified && edges == 0) {
                         continue;
                     }
-                    jobs.push(Topo { k, edges, qualified, lang, root: "ws", unicode: false });
+                    jobs.push(Topo { k, edges, qualified, lang, root: "ws", unicode: false, dotted: false });
+                    // (not Kotlin: it writes the crate name into the package line, where a dotted name cannot be valid)
+                    if edges == 0 && !qualified && k >= 2 && k <= 3 && lang != Lang::Kotlin {
+                        jobs.push(Topo { k, edges, qualified, lang, root: "ws", unicode: false, dotted: true });
+                    }
                     if k <= 3 && k >= 2 {
-                        jobs.push(Topo { k, edges, qualified, lang, root: "ws", unicode: true });
+                        jobs.push(Topo { k, edges, qualified, lang, root: "ws", unicode: true, dotted: false });
                     }
                     if k <= 3 {
-                        jobs.push(Topo { k, edges, qualified, lang, root: "checkout/src/proj/ws", unicode: false });
+                        jobs.push(Topo { k, edges, qualified, lang, root: "checkout/src/proj/ws", unicode: false, dotted: false });
                     }
                     if k <= 2 {
-                        jobs.push(Topo { k, edges, qualified, lang, root: "src", unicode: false });
+                        jobs.push(Topo { k, edges, qualified, lang, root: "src", unicode: false, dotted: false });
                     }
                 }
             }
@@ -394,9 +415,9 @@ fn topology_family(rep: &mut Report) {
             }
             let n = i + 1;
             let own = tn(n, t.unicode);
-            files.push((format!("{}/k{n}/src/lib.rs", t.root), format!("{uses}#[typeshare]\npub struct {own} {{\n{fields}}}\n")));
+            files.push((format!("{}/{}/src/lib.rs", t.root, cdir(n, t.dotted)), format!("{uses}#[typeshare]\npub struct {own} {{\n{fields}}}\n")));
             // a second file of the same crate, deeper, referring to the crate's own type
-            files.push((format!("{}/k{n}/src/sub/more.rs", t.root), format!("use crate::{own};\n#[typeshare]\npub struct Extra{n} {{\n    pub t: {own},\n}}\n")));
+            files.push((format!("{}/{}/src/sub/more.rs", t.root, cdir(n, t.dotted)), format!("use crate::{own};\n#[typeshare]\npub struct Extra{n} {{\n    pub t: {own},\n}}\n")));
         }
         files
     };
@@ -437,10 +458,13 @@ fn topology_family(rep: &mut Report) {
             rep.vios.add(Violation { sig: format!("C14|{}|topology|run-failed:{}|{shape}", lang.name(), o.class), detail: detail("multi-file run failed") });
             continue;
         }
-        let expected_files: BTreeSet<String> = (1..=t.k).map(|n| pipeline::out_file_name(lang, &format!("k{n}"))).collect();
+        let expected_files: BTreeSet<String> = (1..=t.k).map(|n| pipeline::out_file_name(lang, &cdir(n, t.dotted).replace('-', "_"))).collect();
+        if expected_files.len() != t.k {
+            rep.machinery(format!("reference model maps {} crates to {} file names", t.k, expected_files.len()));
+        }
         let got_files: BTreeSet<String> = o.files.keys().filter(|k| *k != "Codable.swift").cloned().collect();
         if got_files != expected_files {
-            rep.vios.add(Violation { sig: format!("C14|{}|topology|file-set|crates={}|root={}", lang.name(), t.k, match t.root { "ws" => "plain", "src" => "directory-named-src", _ => "below-an-outer-src" }), detail: detail(&format!("expected files {expected_files:?}, got {got_files:?}")) });
+            rep.vios.add(Violation { sig: format!("C14|{}|topology|file-set|crates={}|dotted_crate_names={}|root={}", lang.name(), t.k, t.dotted as u8, match t.root { "ws" => "plain", "src" => "directory-named-src", _ => "below-an-outer-src" }), detail: detail(&format!("expected files {expected_files:?}, got {got_files:?}")) });
             continue;
         }
         let mut parsed: BTreeMap<String, OutFile> = BTreeMap::new();
@@ -463,7 +487,7 @@ fn topology_family(rep: &mut Report) {
         for n in 1..=t.k {
             for name in [tn(n, t.unicode), format!("Extra{n}")] {
                 judgements += 1;
-                let home = pipeline::out_file_name(lang, &format!("k{n}"));
+                let home = pipeline::out_file_name(lang, &cdir(n, t.dotted).replace('-', "_"));
                 let total: usize = parsed.values().map(|of| of.defs.iter().filter(|d| d.name() == name).count()).sum();
                 let at_home = parsed.get(&home).map(|of| of.defs.iter().filter(|d| d.name() == name).count()).unwrap_or(0);
                 if total != 1 || at_home != 1 {
@@ -553,7 +577,10 @@ pub fn run(args: &[String]) -> i32 {
                                 if !thorough && ((deep && position != "field") || (mapped && renamed)) {
                                     continue;
                                 }
-                                cases.push(Case { form, renamed, mapped, homonym, position, deep, dashed: deep || renamed, lang });
+                                cases.push(Case { form, renamed, mapped, homonym, homonym_renamed: false, position, deep, dashed: deep || renamed, lang });
+                                if homonym && !mapped && !deep && position == "field" {
+                                    cases.push(Case { form, renamed, mapped, homonym, homonym_renamed: true, position, deep, dashed: renamed, lang });
+                                }
                             }
                         }
                     }
@@ -586,7 +613,7 @@ pub fn run(args: &[String]) -> i32 {
     rep.cov("traces_validated_against_impl", json!(cases.len() * 2));
     rep.cov("distinct_nontrivial", json!(nontrivial));
     rep.cov("distinct_outcomes", json!(outcomes.len()));
-    rep.cov("bounds", json!({"reference_forms": FORMS, "target_renamed": [false, true], "target_type_mapped": [false, true], "same_named_type_in_third_crate": [false, true], "positions": POSITIONS, "file_depth": ["src/lib.rs", "src/a/b.rs (and dashed crate name)"], "languages": 6, "crates": "2-3 (reference forms), 1-5 (topologies)"}));
+    rep.cov("bounds", json!({"reference_forms": FORMS, "target_renamed": [false, true], "target_type_mapped": [false, true], "same_named_type_in_third_crate": ["no", "yes", "yes, serde-renamed (plus a fourth crate with another renamed homonym)"], "positions": POSITIONS, "file_depth": ["src/lib.rs", "src/a/b.rs (and dashed crate name)"], "languages": 6, "crates": "2-3 (reference forms), 1-5 (topologies)"}));
     topology_family(&mut rep);
     rep.cov("exhaustive", json!(true));
     rep.cov("rule", json!("full product of reference form × serde(rename) on the target × type mapping of the target × same-named type in a third crate × reference position × file depth/dashed crate name × language, each workspace generated with -d and with -o by the real binary: file set and names per crate, each definition in its crate's file, definitions equal to single-file mode, and (TypeScript, Kotlin) every cross-file reference imported from the defining module and no import of a name its module does not define. non-trivial = the reference crosses a crate boundary."));
